@@ -282,8 +282,6 @@ addIfNotFound(
 }
 
 
-static const NodeRefList    theEmptyList(XalanMemMgrs::getDummyMemMgr());
-
 void
 KeyTable::processKeyDeclaration(
             KeysMapType&                    theKeys,
@@ -296,7 +294,15 @@ KeyTable::processKeyDeclaration(
     // use attribute in xsl:key.
     assert(kd.getUse() != 0);
 
-    const XObjectPtr    xuse(kd.getUse()->execute(testNode, resolver, theEmptyList, executionContext));
+    // The use expression is evaluated with the node as the current node,
+    // and a current node list that contains just that node.
+    typedef StylesheetExecutionContext::BorrowReturnMutableNodeRefList  BorrowReturnMutableNodeRefList;
+
+    BorrowReturnMutableNodeRefList  theNodeList(executionContext);
+
+    theNodeList->addNode(testNode);
+
+    const XObjectPtr    xuse(kd.getUse()->execute(testNode, resolver, *theNodeList, executionContext));
 
     if(xuse->getType() != XObject::eTypeNodeSet)
     {
